@@ -276,6 +276,26 @@ def run(ctx):
     rep.rule('R13.3', 'complement siblings: searchcomplement / biselect / facet')
     rep.rule('R13.7', 'search applies the pattern to the text of one cell at a time')
     r137(ctx, rep)
+    # R13.8: the comparison selectors are exact complements of each other (selectlt / selectge, selectgt / selectle) only
+    # if <=, >, >= are the stated functions of < and == on Comparable (C04 R4.2) -- the selectors reach them through the
+    # reflected operators of the wrapped reference value
+    from . import c04 as _c04
+    from ..report import Report as _Report
+    _sub = _Report('C04', ctx.tier, ctx.root)
+    _saved = ctx.report
+    ctx.report = _sub
+    try:
+        _c04.r42(ctx, _sub)
+    finally:
+        ctx.report = _saved
+    _n = 0
+    for _o in _sub.obligations:
+        if _o.module == 'petl.comparison':
+            _n += 1
+            rep.add('R13.8', (_o.module, _o.qualname), _o.construct, _o.status, _o.message, _o.lineno, _o.detail)
+    rep.rule('R13.8', 'derived comparison operators of Comparable are the stated functions of < and == (C04 R4.2)')
+    if _n < 3:
+        raise AnalysisError('anchor vanished: derived operators of Comparable (%d)' % _n)
     rep.rule('R13.4', 'positional selection = itertools.islice with the user\'s arguments')
     rep.assumptions = ['Comparable defines all six operators, so mixed raw/wrapped comparisons land in its ladder (C04)',
                        'user predicates are pure']
